@@ -448,5 +448,17 @@ def run(ctx):
             ok = lim is not None and 'maxsize' in {x.id for x in ast.walk(lim) if isinstance(x, ast.Name)}
             ctx.ob('T9.nslimit', rn.fq, 'with a per-call maxsize the size-prefix limit is computed from that maxsize (a valid frame up to '
                    'the new limit is not rejected by a stale prefix limit)', ok, loc=loc(rn, ru2[0].node), detail=txt(lim) if lim is not None else 'no maxsize passed')
+    # T14.close: recv_close turns exactly "the peer closed the connection" into its normal return.  Timeout (and every other
+    # socket error) is a subclass of the same base class: a handler for the base would end the read early with a partial result
+    rcl = prog.func(CLS + '.recv_close')
+    hs = [h for t in ast.walk(rcl.node) if isinstance(t, ast.Try) for h in t.handlers]
+    swallowing = [h for h in hs if not any(isinstance(x, ast.Raise) for x in ast.walk(h))]
+    if not swallowing:
+        ctx.unknown('T14.close', rcl.fq, 'no handler that turns the end of the stream into a result found', rcl.loc)
+    for h in swallowing:
+        tys = [txt(x) for x in (h.type.elts if isinstance(h.type, ast.Tuple) else [h.type])] if h.type is not None else ['BaseException']
+        ok = all(t.split('.')[-1] == 'ConnectionClosed' for t in tys)
+        ctx.ob('T14.close', rcl.fq, 'only ConnectionClosed ends recv_close normally (a Timeout or another socket error propagates)', ok,
+               loc=loc(rcl, h), detail='handler for %s' % ', '.join(tys))
     for r, n in (('T10', 5), ('T9.sbuf', 1), ('T9.adv', 1), ('T17', 3), ('T12.ns', 2), ('T7.look', 2)):
         ctx.need(r, n)
